@@ -8,11 +8,12 @@ scalars, one-dimensional arrays of at most ten items as lists, every other array
 (dtype, shape, values), containers element-wise -/
 def canon : PV → PV
   | .npScalar i => .int i
+  | .npExotic dtype tok => .arr dtype [] [] 0 [tok]      -- a 0-d array of the scalar's dtype holding the value
   | .arr dtype shape strides off mem =>
     -- same dtype, same shape, C-contiguous, holding the elements in row-major order
     match shape with
     | [n] =>
-      if n ≤ 10 && !isComplexDtype dtype then .list (ofInts (gather mem shape strides off))
+      if n ≤ 10 && !noListDtype dtype then .list (ofInts (gather mem shape strides off))
       else .arr dtype shape (cStrides shape) 0 (gather mem shape strides off)
     | _ => .arr dtype shape (cStrides shape) 0 (gather mem shape strides off)
   | .list l => .list (canonList l)
